@@ -208,7 +208,7 @@ def pywbem_requests_exception(exc, conn):
 
     assert isinstance(exc, requests.exceptions.RequestException)
 
-    message = exc.args[0]
+    message = exc.args[0] if exc.args else ''
 
     # Handle the case where requests puts an urllib3 exception into the
     # first argument, instead of a message.
@@ -304,7 +304,7 @@ def pywbem_urllib3_exception(exc, conn):
     """
     assert isinstance(exc, urllib3.exceptions.HTTPError)
 
-    message = exc.args[0]
+    message = exc.args[0] if exc.args else ''
     if not isinstance(message, str):
         warnings.warn(
             f"urllib3 exception {type(exc)} has a {type(message)} object "
